@@ -157,7 +157,8 @@ func interpret(s *spec, text string) (any, error) {
 		}
 		return meta.NewExposureBias(int16(n), int16(d)), nil
 	case kDate:
-		for _, layout := range []string{"2006-01-02T15:04:05.999999999Z07:00", "2006-01-02T15:04:05.999999999"} {
+		// XMP Date: YYYY, YYYY-MM, YYYY-MM-DD, YYYY-MM-DDThh:mmTZD, ...:ssTZD, ...:ss.sTZD (TZD optional)
+		for _, layout := range []string{"2006-01-02T15:04:05.999999999Z07:00", "2006-01-02T15:04:05.999999999", "2006-01-02T15:04Z07:00", "2006-01-02T15:04", "2006-01-02", "2006-01", "2006"} {
 			if t, err := time.Parse(layout, text); err == nil {
 				return t, nil
 			}
@@ -182,6 +183,34 @@ func interpret(s *spec, text string) (any, error) {
 		}
 		return u, nil
 	case kFloat:
+		// XMP specification part 2: GPSCoordinate "DDD,MM,SSk" or "DDD,MM.mmk" (k in N S E W); Rational "n/d"; else a decimal
+		if n := len(text); n > 1 && strings.ContainsRune("NSEW", rune(text[n-1])) {
+			parts := strings.Split(text[:n-1], ",")
+			if len(parts) != 2 && len(parts) != 3 {
+				return nil, fmt.Errorf("bad GPS coordinate")
+			}
+			var v, scale float64 = 0, 1
+			for _, p := range parts {
+				f, err := strconv.ParseFloat(p, 64)
+				if err != nil {
+					return nil, err
+				}
+				v += f / scale
+				scale *= 60
+			}
+			if text[n-1] == 'S' || text[n-1] == 'W' {
+				v = -v
+			}
+			return v, nil
+		}
+		if i := strings.IndexByte(text, '/'); i > 0 {
+			a, err1 := strconv.ParseFloat(text[:i], 64)
+			b, err2 := strconv.ParseFloat(text[i+1:], 64)
+			if err1 != nil || err2 != nil || b == 0 {
+				return nil, fmt.Errorf("bad rational")
+			}
+			return a / b, nil
+		}
 		return strconv.ParseFloat(text, 64)
 	case kMime:
 		return mimes[text], nil
@@ -386,7 +415,22 @@ func genValue(rt *rapid.T, s *spec, long bool) string {
 		}
 		return fmt.Sprintf("%d/%d", n, d)
 	case kDate:
-		return xmpgen.GenDate(rt, "date").String()
+		d := xmpgen.GenDate(rt, "date").String()
+		if long { // (flag reused by the standard-forms switch: truncated date forms)
+			switch rapid.IntRange(0, 3).Draw(rt, "datecut") {
+			case 0:
+				return d[:10] // YYYY-MM-DD
+			case 1:
+				return d[:7]
+			case 2:
+				zone := ""
+				if i := strings.IndexAny(d[19:], "Z+-"); i >= 0 {
+					zone = d[19+i:]
+				}
+				return d[:16] + zone // no seconds
+			}
+		}
+		return d
 	case kUUID:
 		var u [16]byte
 		for i := range u {
@@ -404,6 +448,18 @@ func genValue(rt *rapid.T, s *spec, long bool) string {
 		}
 		return rapid.SampledFrom([]string{"", "xmp.did:", "xmp.iid:", "uuid:"}).Draw(rt, "uprefix") + canon
 	case kFloat:
+		if long && s.name != "GPSAltitude" { // standard-forms switch: GPSCoordinate
+			deg := rapid.IntRange(0, s.max-1).Draw(rt, "deg")
+			k := map[string]string{"GPSLatitude": "NS", "GPSLongitude": "EW"}[s.name]
+			ref := string(k[rapid.IntRange(0, 1).Draw(rt, "ref")])
+			if rapid.Bool().Draw(rt, "dms") {
+				return fmt.Sprintf("%d,%d,%d%s", deg, rapid.IntRange(0, 59).Draw(rt, "min"), rapid.IntRange(0, 59).Draw(rt, "sec"), ref)
+			}
+			return fmt.Sprintf("%d,%d.%04d%s", deg, rapid.IntRange(0, 59).Draw(rt, "min"), rapid.IntRange(0, 9999).Draw(rt, "minfrac"), ref)
+		}
+		if long { // GPSAltitude as Rational
+			return fmt.Sprintf("%d/%d", rapid.IntRange(0, 900000).Draw(rt, "altn"), rapid.SampledFrom([]int{1, 10, 100, 1000}).Draw(rt, "altd"))
+		}
 		v := rapid.Float64Range(-float64(s.max), float64(s.max)).Draw(rt, "f")
 		return strconv.FormatFloat(v, 'f', rapid.IntRange(0, 8).Draw(rt, "prec"), 64)
 	case kMime:
@@ -472,6 +528,9 @@ func genCase(o opts) func(rt *rapid.T) Case {
 			long := s.k == kString && longBudget > 0
 			if long {
 				longBudget--
+			}
+			if o.ext == "standard-forms" && (s.k == kFloat || s.k == kDate) {
+				long = true
 			}
 			p := xmpgen.Prop{NS: s.ns, Name: s.name, Value: genValue(rt, s, long), Elem: rapid.Bool().Draw(rt, "elem"), Quote: rapid.SampledFrom([]byte{'"', '"', '\''}).Draw(rt, "quote"), Block: rapid.IntRange(0, 2).Draw(rt, "block")}
 			if s.ns == "xmp" && rapid.IntRange(0, 5).Draw(rt, "oldprefix") == 0 {
@@ -588,7 +647,7 @@ func seq(n int) []int {
 
 var chk = pbt.Check[Case]{Name: "xmp-roundtrip", Gen: genCase(opts{}), Eval: eval}
 var chkOver = pbt.Check[Case]{Name: "xmp-overlong-token", Gen: genCase(opts{over: true}), Eval: eval}
-var exts = []string{"ws-tab", "ws-cr", "ws-long", "rating-negative", "entities", "ws-in-tags"}
+var exts = []string{"ws-tab", "ws-cr", "ws-long", "rating-negative", "entities", "ws-in-tags", "standard-forms"}
 var chkExt = map[string]pbt.Check[Case]{}
 
 func init() {
@@ -607,7 +666,7 @@ func TestProp(t *testing.T) {
 		"oracle: parse(serialise(record)) == record field by field by independently written text-to-value rules (floats within 2 ulp of float32, dates as instants with zone offset, arrays in document order, nothing extra); all-attribute form == all-element form; a token longer than the 1538-byte window => error. " +
 		"non-trivial = >= 4 properties, both forms present and >= 1 value of >= 120 bytes; distinct by packet bytes")
 	rec.Assume("values use what a writer can emit without escaping: no < > & quotes, no leading / trailing white space; predefined entities, TAB / CR white space, > 100 bytes between tokens and Rating -1 are extended switches checked separately (key ext:<switch>)")
-	rec.Assume("GPS coordinates in the XMP 'DDD,MM.mmK' form, dates without seconds and rdf:parseType structures are outside what the code accepts and are not generated")
+	rec.Assume("rdf:parseType structures, comments, CDATA sections, numeric character references and unqualified attributes are outside what the reader models and are not generated (values never begin with a literal '>' nor carry leading / trailing white space)")
 	rec.Rule("exhaustive shift: records drawn from VERIF_SEED, each behind 0..N bytes that precede the packet (N = 1600 quick, 3300 thorough; the reader's window is 1538 bytes): every token of the packet meets every window phase")
 	pbt.RegressDir(t, rec)
 	{
